@@ -126,7 +126,13 @@ func VerifInstallRegistries(s *VerifRegistrySnapshot) {
 	encoders = map[TypeKey]WrapperEncoderWithMessageType{}
 	decoders = map[TypeKey]WrapperDecoder{}
 	multiCauseDecoders = map[TypeKey]MultiCauseDecoder{}
-	backwardRegistry = map[TypeKey]TypeKey{}
+	// The migration table is emptied through the library's own function,
+	// not by assigning the variable: whatever that function also resets
+	// (e.g. a cache of type keys derived from the table) is then reset here
+	// too, so that a correct implementation stays consistent under this
+	// hook. The restore func is deliberately dropped. The fresh table is
+	// then filled entry by entry, before the library can observe anything.
+	_ = TestingWithEmptyMigrationRegistry()
 	for k, v := range s.le {
 		leafEncoders[k] = v
 	}
@@ -141,6 +147,10 @@ func VerifInstallRegistries(s *VerifRegistrySnapshot) {
 	}
 	for k, v := range s.md {
 		multiCauseDecoders[k] = v
+	}
+	for k := range backwardRegistry {
+		// only if the library's function did not leave an empty table
+		delete(backwardRegistry, k)
 	}
 	for k, v := range s.bw {
 		backwardRegistry[k] = v
